@@ -28,13 +28,24 @@ func (g *Grammar) Print() *Printed {
 	if name == "" {
 		name = "gen"
 	}
-	fmt.Fprintf(b, "language %s(go);\n\n", name)
-	if g.EventBased {
+	target := g.Target
+	if target == "" {
+		target = "go"
+	}
+	fmt.Fprintf(b, "language %s(%s);\n\n", name, target)
+	if target == "cc" {
+		fmt.Fprintf(b, "namespace = %q\n\n", name)
+	}
+	if g.EventBased && target == "go" {
 		b.WriteString("eventBased = true\n\n")
 	}
 	b.WriteString(":: lexer\n\n")
-	for _, t := range g.Terms {
-		fmt.Fprintf(b, "%s: /%s/\n", t, t)
+	for i, t := range g.Terms {
+		if i < len(g.TermTypes) && g.TermTypes[i] != "" {
+			fmt.Fprintf(b, "%s {%s}: /%s/\n", t, g.TermTypes[i], t)
+		} else {
+			fmt.Fprintf(b, "%s: /%s/\n", t, t)
+		}
 	}
 	if g.HasError {
 		b.WriteString("error:\n")
@@ -103,6 +114,9 @@ func (g *Grammar) Print() *Printed {
 			}
 			b.WriteString(">")
 		}
+		if nt.Type != "" {
+			fmt.Fprintf(b, " {%s}", nt.Type)
+		}
 		if nt.Arrow != "" {
 			fmt.Fprintf(b, " -> %s", nt.Arrow)
 		}
@@ -148,7 +162,17 @@ func (pr *printer) alt(a *Alt) {
 		pr.pred(a.Pred)
 		b.WriteString("]")
 	}
-	if a.EmptyMark {
+	empty := a.EmptyMark
+	if pr.g.Target == "cc" {
+		// the C++ target requires the marker on every alternative without symbols
+		empty = true
+		for _, p := range a.Parts {
+			if !symbolFree(p) {
+				empty = false
+			}
+		}
+	}
+	if empty {
 		sp()
 		b.WriteString("%empty")
 	}
@@ -246,9 +270,29 @@ func (pr *printer) primary(e *Expr) {
 		pr.part(e)
 	default:
 		pr.b.WriteString("(")
+		if pr.g.Target == "cc" && symbolFree(e) {
+			pr.b.WriteString("%empty ")
+		}
 		pr.part(e)
 		pr.b.WriteString(")")
 	}
+}
+
+// symbolFree: a group of state markers / commands only (an "empty alternative"
+// for the C++ target, which wants the %empty marker there).
+func symbolFree(e *Expr) bool {
+	switch e.Kind {
+	case KMarker, KCmd:
+		return true
+	case KSeq:
+		for _, s := range e.Sub {
+			if !symbolFree(s) {
+				return false
+			}
+		}
+		return true
+	}
+	return false
 }
 
 func (pr *printer) part(e *Expr) {
@@ -293,6 +337,9 @@ func (pr *printer) part(e *Expr) {
 		b.WriteString("+")
 	case KList:
 		b.WriteString("(")
+		if pr.g.Target == "cc" && symbolFree(&Expr{Kind: KSeq, Sub: e.Sub}) {
+			b.WriteString("%empty ")
+		}
 		for i, s := range e.Sub {
 			if i > 0 {
 				b.WriteByte(' ')
